@@ -42,7 +42,8 @@ RULE = ("seeded scripts as in C15 with values drawn from 50 per-operator values;
         "sub-communicator from MPI_Comm_split (split 0: parity of the on-node index, 1: parity of the node / halves), script ranks and "
         "destinations >= its size issue nothing; twin: two adapters (and targets) of the same type alive at once, key k belongs to "
         "pair (k >> 20) >= J, each with its own fold and model replay; "
-        "non-trivial = a contribution was issued while the rank was inside a flush's send, or a value was combined at an intermediate rank")
+        "rbkbag2: reduce_by_key_map over a bag built on a second ygm::comm over the same ranks, inserts issued right before the call, "
+        "no barrier; non-trivial = a contribution was issued while the rank was inside a flush's send, or a value was combined at an intermediate rank")
 M64 = 1 << 64
 PRIME = 1000003
 
@@ -104,9 +105,17 @@ def make_cases(tier, seed):
                       "hot": 70, "hpct": 0, "fwdpct": 0, "vmax": 50, "routing": ROUTINGS[g.below(3)], "buffer_kb": [0, 1][g.below(2)],
                       "policy": POLICIES[g.below(5)], "sim_seed": 1 + g.below(1 << 20), "mode": "rbkvec" if i % 2 == 0 else "rbkbag",
                       "op": [3, 4, 0, 5, 6, 3, 1, 2][i % 8]})
+    # reduce_by_key_map whose input bag lives on a SECOND ygm::comm over the same ranks and still has un-barriered
+    # async_inserts when it is called (for_all inside must complete them)
+    for i in range(4 if tier == "quick" else 16):
+        nodes, ppn = LAYOUTS[(i + 1) % len(LAYOUTS)]
+        cases.append({"script_seed": g.next() % (1 << 31), "nodes": nodes, "ppn": ppn, "phases": 1, "nops": 40, "bases": [5, 77], "J": 4,
+                      "hot": 70, "hpct": 0, "fwdpct": 0, "vmax": 50, "routing": ROUTINGS[g.below(3)], "buffer_kb": [16384, 1024][i % 2],   # default-sized buffers: with tiny ones a rank spins in the bag's communicator while its peer waits in cm.barrier() (two communicators do not service each other)
+                      "policy": POLICIES[g.below(5)], "sim_seed": 1 + g.below(1 << 20), "mode": "rbkbag2",
+                      "op": [0, 3, 4, 1][i % 4]})
     c15.add_dimensions(cases, g)
     for c in cases:
-        if c["mode"] in ("rbkvec", "rbkbag"):
+        if c["mode"] in ("rbkvec", "rbkbag", "rbkbag2"):
             c["twin"] = 0           # reduce_by_key_map creates its own map and adapter
         if c["mode"] == "rarr":
             if c["twin"]:
